@@ -1287,6 +1287,33 @@ def partial_batches(quick=True):
     return out
 
 
+def shared_parameter_cases(quick=True):
+    """2-3 connections built from ONE parameters object — side by side and one after the other (a reconnect) — and from
+    equal-but-distinct objects; the server issues every connection its own session ids, or none"""
+    out = []
+    A = alphabet()
+    words = [(0, 2, 2), (2, 0, 1), (0, 18, 2), (4, 2), (2, 2, 2), (8, 2, 0), (15, 0, 2), (1,), (2,)]
+    n = 0
+    for w in words if quick else words * 4:
+        for mode in ("share", "reuse", "distinct"):
+            for s0 in (None, "sess-0"):
+                n += 1
+                c = sequence(w, rot=n % 6, session0=s0)
+                for j, r in enumerate(c["reqs"]):
+                    r["b"]["lat"] = [0, 2, 1, 3][(j + n) % 4]
+                if mode == "reuse":
+                    c["reuse"] = True
+                else:
+                    c["instances"] = 2 + n % 2
+                    if mode == "share":
+                        c["share_params"] = True
+                if n % 5 == 0:
+                    c["cfg"] = {"headers": {"X-Custom": "v"}}
+                c["hk"] = "one-parameters-object/" + mode
+                out.append(c)
+    return out
+
+
 def hardening3(rng, budget):
     quick = budget == "quick"
     out = []
@@ -1388,6 +1415,7 @@ def hardening3(rng, budget):
                     mkreq({"s": "﻿id"}, response_b(500, "json", {"form": "empty"}))])
         c["hk"] = "unicode-twin-ids"
         out.append(c)
+    out += shared_parameter_cases(quick)
     return decorate(out, salt=9)
 
 
